@@ -553,7 +553,7 @@ func (imm *ImmExp) Eval(env Env) (Exp, bool) {
 		// 最初に '$' をチェックします
 		if identValue == "$" {
 			// Env インターフェースから GetLOC メソッドを使用します
-			dollarVal := int64(env.GetLOC()) // LOC (int32) を $ の値として使用します
+			dollarVal := int64(uint32(env.GetLOC())) // LOC is an unsigned 32-bit address kept in an int32: $ is that address, not a negative number
 			newFactor := NewNumberFactor(BaseFactor{}, int(dollarVal))
 			numExp := NewNumberExp(ImmExp{BaseExp: imm.BaseExp, Factor: newFactor}, dollarVal)
 			return numExp, true
